@@ -149,15 +149,17 @@ inductive RStep
   | copy1                -- one character copied                        guard `MAX - dlen <= 1`
   deriving Repr, DecidableEq
 
+/-- characters a step writes -/
+def RStep.len : RStep → Nat
+  | .skip k => k
+  | .repl r => r
+  | .copy1 => 1
+
 /-- run the steps; `none` = the efun gave up (returns 0); `some dlen` otherwise -/
 def replaceRun (limit : Nat) : List RStep → Nat → Option Nat
   | [], dlen => some dlen
   | st :: rest, dlen =>
-    let n := match st with
-      | .skip k => k
-      | .repl r => r
-      | .copy1 => 1
-    if limit - dlen ≤ n then none else replaceRun limit rest (dlen + n)
+    if limit - dlen ≤ st.len then none else replaceRun limit rest (dlen + st.len)
 
 /-- the final tail copy: `if ((ptrdiff_t) (MAX - dlen) <= slimit - src) give up` -/
 def replaceFinish (limit : Nat) (tail : Nat) : Option Nat → SzR
